@@ -1043,6 +1043,9 @@ func (fc *FnCtx) runAnchors(st *State, kind, name string, ord int, pos token.Pos
 			if c.AnchorOrd != 0 && c.AnchorOrd != ord {
 				continue
 			}
+			if c.AnchorName != "" && !fc.localInScope(c.AnchorName, pos) {
+				continue
+			}
 		}
 		fc.anchorHit[i] = true
 		fc.applyAnchored(st, c, i, kind, name, ord, pos, results)
@@ -1063,6 +1066,12 @@ func (fc *FnCtx) applyAnchored(st *State, c *Clause, i int, kind, name string, o
 	extra := map[string]Term{}
 	for j, r := range results {
 		extra[fmt.Sprintf("ret%d", j)] = r
+	}
+	if kind == "call" || kind == "aftercall" {
+		// arg0, arg1, ...: the argument values of the anchored call (recv: its receiver)
+		for j, a := range fc.anchorArgs {
+			extra[fmt.Sprintf("arg%d", j)] = a
+		}
 	}
 	switch c.Kind {
 	case "assert":
